@@ -1,10 +1,11 @@
 /-
-  Lungo.Proofs.ConcDeadlock — the lock-order inversion witness: one session used by two actors.
+  Lungo.Proofs.ConcDeadlock — the lock-order inversion witness for the OLD step order of Engine.Begin
+  (`stepOld`, Model/ConcOld.lean: session read under e.mutex): one session used by two actors.
   Actor 2 runs a CRUD call with the session context (useTransaction → Engine.Begin holds e.mutex and
   wants s.mutex via sess.Transaction()); actor 1 runs Session.AbortTransaction (holds s.mutex and wants
   e.mutex via Engine.Abort).
 -/
-import Lungo.Model.Conc
+import Lungo.Model.ConcOld
 namespace Lungo.Conc
 
 /-- session 5 is shared by actors 1 and 2 -/
@@ -16,15 +17,15 @@ def deadSched : List (ActorId × Choice) :=
    (1, .call (.sessAbort 5)), (1, .go), (1, .go),                  -- 1: AbortTransaction: s.mutex.Lock(); → wants e.mutex
    (0, .tick)]                                                     -- expiry: Begin → wants e.mutex
 
-theorem dead_isSome : (run (init 2) deadSched).isSome = true := by rfl
+theorem dead_isSome : (runOld (init 2) deadSched).isSome = true := by rfl
 
-def deadState : State := (run (init 2) deadSched).get dead_isSome
+def deadState : State := (runOld (init 2) deadSched).get dead_isSome
 
-theorem dead_run : run (init 2) deadSched = some deadState := by
+theorem dead_run : runOld (init 2) deadSched = some deadState := by
   simp [deadState]
 
-theorem dead_reachable : Reachable 2 deadState :=
-  run_reachable .init deadSched deadState dead_run
+theorem dead_reachable : ReachableOld 2 deadState :=
+  runOld_reachable .init deadSched deadState dead_run
 
 theorem dead_facts :
     deadState.eng.mutex = some 2 ∧ (deadState.loc 2).pc = .bSessLock ∧
@@ -32,20 +33,34 @@ theorem dead_facts :
     deadState.eng.alive = true := by
   refine ⟨?_, ?_, ?_, ?_, ?_, ?_⟩ <;> rfl
 
-theorem dead_stuck0 : ∀ c, step deadState 0 c = none := by intro c; cases c <;> rfl
-theorem dead_stuck1 : ∀ c, step deadState 1 c = none := by intro c; cases c <;> rfl
-theorem dead_stuck2 : ∀ c, step deadState 2 c = none := by intro c; cases c <;> rfl
+theorem dead_stuck0 : ∀ c, stepOld deadState 0 c = none := by intro c; cases c <;> rfl
+theorem dead_stuck1 : ∀ c, stepOld deadState 1 c = none := by intro c; cases c <;> rfl
+theorem dead_stuck2 : ∀ c, stepOld deadState 2 c = none := by intro c; cases c <;> rfl
 
-theorem dead_stuck : ∀ (a : Nat) (c : Choice), step deadState a c = none := by
+theorem dead_stuck : ∀ (a : Nat) (c : Choice), stepOld deadState a c = none := by
   intro a c
   by_cases h : a > 2
   · have hn : deadState.n = 2 := by rfl
-    simp [step, hn, h]
+    simp [stepOld, hn, h]
   · have h' : a ≤ 2 := Nat.le_of_not_gt h
     have : a = 0 ∨ a = 1 ∨ a = 2 := by omega
     rcases this with rfl | rfl | rfl
     · exact dead_stuck0 c
     · exact dead_stuck1 c
     · exact dead_stuck2 c
+
+/-- under the CURRENT step order the same calls do not wedge: actor 2 reads the session before taking
+    `e.mutex`, so actor 1's AbortTransaction gets `e.mutex`, releases the token, and actor 2 proceeds -/
+def fixedSched : List (ActorId × Choice) :=
+  [(2, .call (.useTx true (some 5))), (2, .go), (2, .go),
+   (1, .call (.sessStart 5)), (1, .go), (1, .go), (1, .go), (1, .go), (1, .tok), (1, .go), (1, .go),
+   (1, .go), (1, .go), (1, .go),
+   (1, .call (.sessAbort 5)), (1, .go), (1, .go),                  -- 1 holds s.mutex, wants e.mutex
+   (1, .go), (1, .go), (1, .go),                                   -- … gets it: Abort, release, unlock s
+   (2, .go), (2, .go), (2, .go), (2, .go), (2, .tok)]              -- 2: session read, Begin, acquires
+
+theorem fixed_run : ((run (init 2) fixedSched).map fun s =>
+    (s.eng.token, s.eng.holder, (s.loc 1).pc, (s.loc 2).pc, (s.sess 5).mutex)) =
+    some (0, some 2, .idle, .bRelock, none) := by rfl
 
 end Lungo.Conc
